@@ -14,6 +14,7 @@ from __future__ import annotations
 import io
 import os
 import random
+import shutil
 import zipfile
 
 ID = "C05"
@@ -41,7 +42,7 @@ def rule(tier):
 def floors(tier):
     return {"evaluations": 6000, "distinct": 5000,
             "counters": {"corpus_archives": 5000, "roundtrip_identical": 5000, "rechunk_cases": 1500 if tier == "quick" else 15000,
-                         "multi_chunk_streams": 50, "stored_chunks_decoded": 200, "synthetic_archives": 60, "synthetic_with_patch_messages": 40, "synthetic_headers_at_varint_boundaries": 10, "synthetic_incompressible_64k": 20, "payload_over_65535": 5, "synthetic_exact_64k_multiple": 6, "generated_doc_archives": 300,
+                         "multi_chunk_streams": 50, "stored_chunks_decoded": 200, "synthetic_archives": 60, "synthetic_with_patch_messages": 40, "rechunk_cases_with_empty_chunks": 3000, "streams_through_reader_and_writer": 120, "synthetic_headers_at_varint_boundaries": 10, "synthetic_incompressible_64k": 20, "payload_over_65535": 5, "synthetic_exact_64k_multiple": 6, "generated_doc_archives": 300,
                          "contract:iwa_encode": 5000, "contract:iwa_decode": 5000}}
 
 
@@ -58,6 +59,8 @@ def plan(tier, seed):
         specs.append({"part": "generated", "n": ndocs // k, "stream": i, "tier": tier, "seed": seed})
     for i in range(4 if tier == "quick" else 12):
         specs.append({"part": "synthetic", "stream": i, "tier": tier, "seed": seed, "rechunk": 20 if tier == "quick" else 200})
+    for i in range(4 if tier == "quick" else 16):
+        specs.append({"part": "through-iwork", "stream": i, "n": 40 if tier == "quick" else 600, "tier": tier, "seed": seed})
     return specs
 
 
@@ -196,6 +199,13 @@ def check_stream(b, rec, origin, case, rechunk=0, rng=None):
                 b2, amb = iwa.frame(p, cuts, stored=lambda i, m=stored_mask: bool(m >> i & 1))
             except AssertionError:
                 continue
+            empties = []
+            if rng.random() < .3:
+                # chunks whose plaintext is empty (two cut points that coincide), in front, in the middle or at the end
+                nch = len(iwa.chunks(b2))
+                empties = [[rng.randrange(nch + 1), rng.choice(["stored", "compressed"])] for _ in range(rng.randint(1, 3))]
+                b2 = iwa.insert_empty_chunks(b2, empties)
+                rec.count("rechunk_cases_with_empty_chunks")
             rec.count("ambiguous_stored_chunks_avoided", amb)
             rec.count("rechunk_cases")
             rec.count("stored_chunks_decoded", sum(1 for c in iwa.chunks(b2) if not c[2]))
@@ -203,6 +213,7 @@ def check_stream(b, rec, origin, case, rechunk=0, rng=None):
             c2 = dict(case)
             c2["cuts"] = cuts
             c2["stored_mask"] = stored_mask
+            c2["empties"] = empties
             try:
                 f2 = IWAFile.from_buffer(b2)
                 ls2 = lib_segments(f2)
@@ -420,6 +431,128 @@ def synth_merge(rng, nseg):
     return iwa.build(segs)
 
 
+def synth_repeated_ids(rng, nseg):
+    """Segments of one file that share identifiers (an object followed later by another segment - merged or not - for the same
+    object): every segment is a segment of the stream, whatever its identifier."""
+    from numbers_parser.generated import TSTArchives_pb2 as TST
+    from numbers_parser.generated.mapping import NAME_ID_MAP
+    from numbers_parser.generated.TSPArchiveMessages_pb2 import ArchiveInfo
+    from vf.ref import iwa
+    segs = []
+    ids = [5000 + i for i in range(max(1, nseg // 2))]
+    for i in range(nseg):
+        ident = rng.choice(ids) if i else ids[0]
+        m = TST.TableDataList(listType=TST.TableDataList.ListType.STRING, nextListID=i + 1).SerializeToString()
+        ai = ArchiveInfo(identifier=ident)
+        if i and rng.random() < .5:
+            ai.should_merge = True
+        mi = ai.message_infos.add()
+        mi.type = NAME_ID_MAP["TST.TableDataList"]
+        mi.version.extend([1, 0, 5])
+        mi.length = len(m)
+        segs.append((ai, [m]))
+    return iwa.build(segs)
+
+
+def through_iwork(stream_bytes, package, scratch):
+    """Pack one archive stream as Index/Tables/DataList.iwa of a minimal container, open it with the library's IWork reader and
+    write it back (single file or package folder); -> the bytes of that member as written."""
+    import plistlib
+    import zipfile
+    from pathlib import Path
+    from numbers_parser.iwork import IWork, IWorkHandler
+
+    class Store(IWorkHandler):
+        def __init__(self):
+            self.files = {}
+
+        def store_file(self, filename, blob):
+            self.files[filename] = blob
+
+        def store_object(self, filename, identifier, archive):
+            pass
+
+        def allowed_format(self, extension):
+            return extension == ".numbers"
+
+        def allowed_version(self, version):
+            return True
+    src = Path(scratch) / "c05-iwork-src.numbers"
+    dst = Path(scratch) / "c05-iwork-dst.numbers"
+    for p_ in (src, dst):
+        if p_.is_dir():
+            shutil.rmtree(p_)
+        elif p_.exists():
+            p_.unlink()
+    with zipfile.ZipFile(src, "w") as z:
+        z.writestr("Index/Tables/DataList.iwa", stream_bytes)
+        z.writestr("Metadata/Properties.plist", plistlib.dumps({"fileFormatVersion": "14.1"}))
+        z.writestr("Metadata/BuildVersionHistory.plist", plistlib.dumps(["M14.1-7040.0.73-2"]))
+    h = Store()
+    iw = IWork(handler=h)
+    iw.open(src)
+    iw.save(dst, h.files, package=package)
+    try:
+        if package:
+            with zipfile.ZipFile(dst / "Index.zip") as z:
+                return z.read("Index/Tables/DataList.iwa")
+        with zipfile.ZipFile(dst) as z:
+            return z.read("Index/Tables/DataList.iwa")
+    finally:
+        for p_ in (src, dst):
+            if p_.is_dir():
+                shutil.rmtree(p_, ignore_errors=True)
+            elif p_.exists():
+                p_.unlink()
+
+
+def through_iwork_case(case, rec):
+    from vf.gen import docs
+    from vf.ref import iwa
+    rm = random.Random(f"C05-iwork-{case['seed']}-{case['stream']}-{case['j']}")
+    kind = rm.choice(["plain", "unknown", "merge", "repeated", "repeated", "big"])
+    if kind == "plain":
+        p = synth(rm.choice([50, 3000, 70000]), rm.choice([1, 3, 12]), rm)
+    elif kind == "unknown":
+        p = synth(rm.choice([200, 5000]), rm.choice([3, 9]), rm, multi=True, unknown=True)
+    elif kind == "merge":
+        p = synth_merge(rm, rm.choice([1, 3, 8]))
+    elif kind == "repeated":
+        p = synth_repeated_ids(rm, rm.choice([2, 4, 9]))
+    else:
+        p = synth(200000, 5, rm, entropy=True)
+    b, _ = iwa.frame(p)
+    want = iwa.segments(p)
+    rec.hist("through_iwork_kind", kind)
+    fx = {"kind": kind, "package": case["package"]}
+    try:
+        out = through_iwork(b, case["package"], docs.scratch_dir())
+    except Exception as e:  # noqa: BLE001
+        rec.violation("through_reader_and_writer_raised", {**fx, "exc": type(e).__name__}, {"msg": str(e)[:200]}, case=case)
+        return
+    rec.count("streams_through_reader_and_writer")
+    try:
+        got = iwa.segments(iwa.plain(out))
+    except Exception as e:  # noqa: BLE001
+        rec.violation("written_stream_undecodable", {**fx, "exc": type(e).__name__}, {"msg": str(e)[:200]}, case=case)
+        return
+    if len(got) != len(want):
+        rec.violation("segments_lost_or_added", fx, {"read": len(want), "written": len(got), "identifiers": [ai.identifier for _, ai, _ in want][:12]}, case=case)
+    elif [(h_, ms) for h_, _, ms in got] != [(h_, ms) for h_, _, ms in want]:
+        k = next(i for i, (a, b_) in enumerate(zip(got, want)) if (a[0], a[2]) != (b_[0], b_[2]))
+        rec.violation("segment_bytes_changed", {**fx, "what": "header" if got[k][0] != want[k][0] else "message"}, {"segment": k}, case=case)
+    for v in iwa.container_rule_violations(out)[:2]:
+        rec.violation("container_rule", {"rule": v.split(":")[-1].strip()[:40], "origin": "through-iwork"}, {"msg": v}, case=case)
+    rec.case(("iwork", case["stream"], case["j"], case["package"]), nontrivial=True)
+
+
+def run_through_iwork(spec, rec):
+    for j in range(spec["n"]):
+        case = {"part": "through-iwork", "seed": spec["seed"], "stream": spec["stream"], "j": j, "package": j % 3 == 2}
+        through_iwork_case(case, rec)
+    rec.sample({"through_iwork": spec["n"], "stream": spec["stream"]})
+
+
 SYN_SIZES = [0, 1, 50, 65535, 65536, 65537, 131071, 131072, 131073, 200000, 1 << 20, 2 << 20]
 
 
@@ -500,7 +633,7 @@ def run_shard(spec, rec):
         for c in spec["cases"]:
             replay(c, rec)
         return
-    {"corpus": run_corpus, "generated": run_generated, "synthetic": run_synthetic}[spec["part"]](spec, rec)
+    {"corpus": run_corpus, "generated": run_generated, "synthetic": run_synthetic, "through-iwork": run_through_iwork}[spec["part"]](spec, rec)
 
 
 def replay(case, rec):
@@ -528,6 +661,8 @@ def replay(case, rec):
                     _replay_cuts(b, case, rec)
                 else:
                     check_stream(b, rec, "replay:" + name, case, rechunk=5, rng=rng)
+    elif part == "through-iwork":
+        through_iwork_case(case, rec)
     elif part == "synthetic-header":
         p, _ = synth_header(case["target"])
         b, _ = iwa.frame(p)
@@ -556,6 +691,8 @@ def _replay_cuts(b, case, rec):
     p = iwa.plain(b)
     m = case["stored_mask"]
     b2, _ = iwa.frame(p, case["cuts"], stored=lambda i: bool(m >> i & 1))
+    if case.get("empties"):
+        b2 = iwa.insert_empty_chunks(b2, case["empties"])
     base = lib_segments(IWAFile.from_buffer(b))
     try:
         got = lib_segments(IWAFile.from_buffer(b2))
